@@ -1,4 +1,760 @@
-/- Helper lemmas for the routing-table model. -/
+/- Helper lemmas for the routing-table model (bucket and table invariants, C07). -/
 import Discv5Model.Model.KBucketSpec
+
 namespace Discv5.KB
+variable {V : Type} [DecidableEq V]
+set_option linter.unusedSectionVars false
+set_option linter.unusedSimpArgs false
+
+/-! ### list helpers -/
+
+theorem removeAt_eq_eraseIdx {α} (l : List α) (i : Nat) : removeAt l i = l.eraseIdx i := by
+  simp [removeAt, List.eraseIdx_eq_take_drop_succ]
+
+theorem removeAt_sublist {α} (l : List α) (i : Nat) : (removeAt l i).Sublist l := by
+  rw [removeAt_eq_eraseIdx]; exact List.eraseIdx_sublist l i
+
+theorem removeAt_length {α} (l : List α) (i : Nat) (h : i < l.length) :
+    (removeAt l i).length = l.length - 1 := by
+  rw [removeAt_eq_eraseIdx, List.length_eraseIdx]; simp [h]
+
+theorem insertAt_perm {α} (l : List α) (i : Nat) (x : α) : (insertAt l i x).Perm (x :: l) := by
+  unfold insertAt
+  have := @List.perm_middle _ x (l.take i) (l.drop i)
+  rwa [List.take_append_drop] at this
+
+theorem insertAt_append_length {α} (dis con : List α) (x : α) :
+    insertAt (dis ++ con) dis.length x = dis ++ x :: con := by
+  simp [insertAt]
+
+/-! ### the ordering part of the invariant -/
+
+def Split (nodes : List (Node V)) (fcp : Option Nat) : Prop :=
+  ∃ dis con, nodes = dis ++ con ∧ (∀ n ∈ dis, n.st.conn = false) ∧
+      (∀ n ∈ con, n.st.conn = true) ∧ fcp = (if con = [] then none else some dis.length) ∧
+      dis.Pairwise (fun a b => a.stamp ≤ b.stamp) ∧ con.Pairwise (fun a b => a.stamp ≤ b.stamp)
+
+theorem split_nil : Split ([] : List (Node V)) none :=
+  ⟨[], [], rfl, by simp, by simp, by simp, List.Pairwise.nil, List.Pairwise.nil⟩
+
+theorem split_append_conn {nodes : List (Node V)} {fcp : Option Nat} {node : Node V}
+    (h : Split nodes fcp) (hc : node.st.conn = true) (hs : ∀ n ∈ nodes, n.stamp ≤ node.stamp) :
+    Split (nodes ++ [node]) (some (fcp.getD nodes.length)) := by
+  obtain ⟨dis, con, rfl, hd, hcn, hf, pd, pc⟩ := h
+  refine ⟨dis, con ++ [node], by simp, hd, ?_, ?_, pd, ?_⟩
+  · intro n hn
+    rcases List.mem_append.1 hn with hn | hn
+    · exact hcn n hn
+    · simp at hn; subst hn; exact hc
+  · by_cases hcon : con = []
+    · subst hcon; simp at hf; subst hf; simp
+    · rw [if_neg hcon] at hf; subst hf; simp
+  · rw [List.pairwise_append]
+    refine ⟨pc, by simp, ?_⟩
+    intro a ha b hb
+    simp at hb; subst hb
+    exact hs a (List.mem_append.2 (Or.inr ha))
+
+theorem split_insert_dis {nodes : List (Node V)} {p : Nat} {node : Node V}
+    (h : Split nodes (some p)) (hc : node.st.conn = false) (hs : ∀ n ∈ nodes, n.stamp ≤ node.stamp) :
+    Split (insertAt nodes p node) (some (p + 1)) := by
+  obtain ⟨dis, con, rfl, hd, hcn, hf, pd, pc⟩ := h
+  by_cases hcon : con = []
+  · rw [if_pos hcon] at hf; cases hf
+  · rw [if_neg hcon] at hf
+    cases hf
+    rw [insertAt_append_length]
+    refine ⟨dis ++ [node], con, by simp, ?_, hcn, by simp [hcon], ?_, pc⟩
+    · intro n hn
+      rcases List.mem_append.1 hn with hn | hn
+      · exact hd n hn
+      · simp at hn; subst hn; exact hc
+    · rw [List.pairwise_append]
+      refine ⟨pd, by simp, ?_⟩
+      intro a ha b hb
+      simp at hb; subst hb
+      exact hs a (List.mem_append.2 (Or.inl ha))
+
+theorem split_append_dis {nodes : List (Node V)} {node : Node V}
+    (h : Split nodes none) (hc : node.st.conn = false) (hs : ∀ n ∈ nodes, n.stamp ≤ node.stamp) :
+    Split (nodes ++ [node]) none := by
+  obtain ⟨dis, con, rfl, hd, hcn, hf, pd, pc⟩ := h
+  by_cases hcon : con = []
+  · subst hcon
+    refine ⟨dis ++ [node], [], by simp, ?_, by simp, by simp, ?_, List.Pairwise.nil⟩
+    · intro n hn
+      rcases List.mem_append.1 hn with hn | hn
+      · exact hd n hn
+      · simp at hn; subst hn; exact hc
+    · rw [List.pairwise_append]
+      refine ⟨pd, by simp, ?_⟩
+      intro a ha b hb
+      simp at hb; subst hb
+      exact hs a (by simpa using ha)
+  · rw [if_neg hcon] at hf; cases hf
+
+/-- `first_connected_pos` after removing position `pos`, as `update_status` computes it. -/
+def fcpU (nodes : List (Node V)) (fcp : Option Nat) (pos : Nat) (old : Node V) : Option Nat :=
+  if old.st.conn then
+    if fcp == some pos && pos == (removeAt nodes pos).length then none else fcp
+  else
+    match fcp with
+    | none => none
+    | some p => checkedSub1 p
+
+/-- the same as `update_first_connected_pos_for_removal` computes it. -/
+def fcpR (nodes : List (Node V)) (fcp : Option Nat) (pos : Nat) : Option Nat :=
+  match fcp with
+  | none => none
+  | some f => if pos < f then some (f - 1)
+              else if f < (removeAt nodes pos).length then some f else none
+
+theorem checkedSub1_pos {n : Nat} (h : 0 < n) : checkedSub1 n = some (n - 1) := by
+  cases n with
+  | zero => omega
+  | succ n => rfl
+
+theorem split_remove {nodes : List (Node V)} {fcp : Option Nat} {pos : Nat} {old : Node V}
+    (h : Split nodes fcp) (hp : nodes[pos]? = some old) :
+    Split (removeAt nodes pos) (fcpU nodes fcp pos old) ∧
+      fcpR nodes fcp pos = fcpU nodes fcp pos old := by
+  obtain ⟨dis, con, rfl, hd, hcn, hf, pd, pc⟩ := h
+  have hlt : pos < (dis ++ con).length := by
+    rcases List.getElem?_eq_some_iff.1 hp with ⟨h, _⟩; exact h
+  have hlen := removeAt_length (dis ++ con) pos hlt
+  unfold fcpU fcpR
+  rw [hlen]
+  rw [List.length_append] at hlt hlen ⊢
+  by_cases hpd : pos < dis.length
+  · -- removed from the disconnected prefix
+    have hold : old ∈ dis := by
+      rw [List.getElem?_append_left hpd] at hp
+      exact List.mem_of_getElem? hp
+    have hoc := hd old hold
+    rw [removeAt_eq_eraseIdx, List.eraseIdx_append_of_lt_length hpd]
+    have hsub := List.eraseIdx_sublist dis pos
+    have hl' : (dis.eraseIdx pos).length = dis.length - 1 := by
+      rw [List.length_eraseIdx]; simp [hpd]
+    constructor
+    · refine ⟨dis.eraseIdx pos, con, rfl, fun n hn => hd n (hsub.subset hn), hcn, ?_,
+        pd.sublist hsub, pc⟩
+      by_cases hcon : con = []
+      · simp [hcon, hf, hoc]
+      · simp only [hcon, hf, hoc, if_false, hl']
+        simp
+        exact checkedSub1_pos (by omega)
+    · by_cases hcon : con = []
+      · simp [hcon, hf, hoc]
+      · simp only [hcon, hf, hoc, if_false]
+        simp [hpd]
+        exact (checkedSub1_pos (by omega)).symm
+  · -- removed from the connected suffix
+    have hpd' : dis.length ≤ pos := by omega
+    have hp' : con[pos - dis.length]? = some old := by
+      rwa [List.getElem?_append_right hpd'] at hp
+    have hold : old ∈ con := List.mem_of_getElem? hp'
+    have hoc := hcn old hold
+    have hcon : con ≠ [] := by intro h; rw [h] at hold; simp at hold
+    have hclen : 0 < con.length := List.length_pos_iff.2 hcon
+    rw [removeAt_eq_eraseIdx, List.eraseIdx_append_of_length_le hpd']
+    have hsub := List.eraseIdx_sublist con (pos - dis.length)
+    have hl' : (con.eraseIdx (pos - dis.length)).length = con.length - 1 := by
+      rw [List.length_eraseIdx]; simp; omega
+    have hnil : con.eraseIdx (pos - dis.length) = [] ↔ con.length = 1 := by
+      rw [← List.length_eq_zero_iff, hl']; omega
+    rw [if_neg hcon] at hf
+    subst hf
+    constructor
+    · refine ⟨dis, con.eraseIdx (pos - dis.length), rfl, hd, fun n hn => hcn n (hsub.subset hn), ?_,
+        pd, pc.sublist hsub⟩
+      simp only [hoc, if_true]
+      by_cases h1 : con.length = 1
+      · have : pos = dis.length := by omega
+        rw [if_pos (hnil.2 h1), if_pos]
+        simp [this, h1]
+      · rw [if_neg (fun h => h1 (hnil.1 h)), if_neg]
+        intro h
+        simp only [Bool.and_eq_true, beq_iff_eq, Option.some.injEq] at h
+        omega
+    · simp only [hoc, if_true]
+      rw [if_neg hpd]
+      by_cases h1 : con.length = 1
+      · have : pos = dis.length := by omega
+        simp [h1, this]
+      · rw [if_pos (by omega), if_neg]
+        intro h
+        simp only [Bool.and_eq_true, beq_iff_eq, Option.some.injEq] at h
+        omega
+
+/-! ### `insert` -/
+
+def InsertedShape (b : Bucket V) (node : Node V) (nodes' : List (Node V)) (fcp' : Option Nat) : Prop :=
+  (node.st.conn = true ∧ nodes' = b.nodes ++ [node] ∧
+      fcp' = some (b.fcp.getD b.nodes.length)) ∨
+  (node.st.conn = false ∧ ∃ p, b.fcp = some p ∧ nodes' = insertAt b.nodes p node ∧ fcp' = some (p+1)) ∨
+  (node.st.conn = false ∧ b.fcp = none ∧ nodes' = b.nodes ++ [node] ∧ fcp' = none)
+
+def InsertSpec (c : Cfg V) (now : Nat) (b : Bucket V) (node : Node V) (r : Bucket V × InsertRes) : Prop :=
+    (r.1 = b ∧ r.2 ≠ .inserted ∧ (∀ k, r.2 ≠ .pending k) ∧
+      (r.2 = .nodeExists → (b.position node.key).isSome) ∧ (r.2 = .full → b.isFull = true)) ∨
+    (∃ n0, r = ({ b with pending := some ⟨node, now + c.pendingTimeout⟩ }, .pending n0) ∧
+      b.position node.key = none ∧ b.isFull = true ∧ b.pending = none) ∨
+    (r.2 = .inserted ∧ b.position node.key = none ∧ b.isFull = false ∧
+      (node.st.conn = true → node.st.incoming = true → b.isMaxIncoming c = false) ∧
+      (∀ p', r.1.pending = some p' → b.pending = some p' ∧ p'.node.key ≠ node.key) ∧
+      InsertedShape b node r.1.nodes r.1.fcp)
+
+theorem insert_cases (c : Cfg V) (now : Nat) (b : Bucket V) (node : Node V) :
+    InsertSpec c now b node (Bucket.insert c now b node) := by
+  generalize hr : Bucket.insert c now b node = r
+  unfold Bucket.insert at hr
+  unfold InsertSpec InsertedShape
+  by_cases h1 : (b.position node.key).isSome
+  · simp [h1] at hr; subst hr; simp [h1]
+  have h1' : b.position node.key = none := by simpa using h1
+  by_cases h2 : c.bucketFilter node.value b.values = true
+  case neg => simp [h1', h2] at hr; subst hr; simp
+  by_cases hc : node.st.conn = true
+  · by_cases h3 : (node.st.incoming && b.isMaxIncoming c) = true
+    · simp [h1', h2, hc, h3] at hr; subst hr; simp
+    by_cases h4 : b.isFull = true
+    · by_cases h5 : (b.fcp == some 0 || b.pending.isSome) = true
+      · simp [h1', h2, hc, h3, h4, h5] at hr; subst hr; simp [h4]
+      · cases hn : b.nodes with
+        | nil => simp [h1', h2, hc, h3, h4, h5, hn] at hr; subst hr; simp [h4]
+        | cons n0 rest =>
+          right; left
+          simp [h1', h2, hc, h3, h4, h5, hn] at hr; subst hr
+          simp at h5
+          simp [h4, h5, h1', hn]
+    · right; right
+      simp [h1', h2, hc, h3, h4] at hr
+      cases hp : b.pending with
+      | none => 
+        simp [hp] at hr; subst hr; simp [h1', h4, hc, hp]
+        exact ⟨by simpa using h3, by cases b.fcp <;> rfl⟩
+      | some p =>
+        simp [hp] at hr
+        by_cases hk : p.node.key = node.key
+        · simp [hk] at hr; subst hr; simp [h1', h4, hc, hp]; exact ⟨by simpa using h3, by cases b.fcp <;> rfl⟩
+        · simp [hk] at hr; subst hr; simp [h1', h4, hc, hp, hk]; exact ⟨by simpa using h3, by cases b.fcp <;> rfl⟩
+  · by_cases h4 : b.isFull = true
+    · simp [h1', h2, hc, h4] at hr; subst hr; simp [h4]
+    · right; right
+      simp at hc
+      cases hf : b.fcp with
+      | none =>
+        simp [h1', h2, hc, h4, hf] at hr
+        cases hp : b.pending with
+        | none => simp [hp] at hr; subst hr; simp [h1', h4, hc, hp, hf]
+        | some p =>
+          simp [hp] at hr
+          by_cases hk : p.node.key = node.key
+          · simp [hk] at hr; subst hr; simp [h1', h4, hc, hp, hf]
+          · simp [hk] at hr; subst hr; simp [h1', h4, hc, hp, hk, hf]
+      | some q =>
+        simp [h1', h2, hc, h4, hf] at hr
+        cases hp : b.pending with
+        | none => simp [hp] at hr; subst hr; simp [h1', h4, hc, hp, hf]
+        | some p =>
+          simp [hp] at hr
+          by_cases hk : p.node.key = node.key
+          · simp [hk] at hr; subst hr; simp [h1', h4, hc, hp, hf]
+          · simp [hk] at hr; subst hr; simp [h1', h4, hc, hp, hk, hf]
+/-! ### the node-list part of the bucket invariant -/
+
+structure NInv (c : Cfg V) (tick : Nat) (nodes : List (Node V)) (fcp : Option Nat) : Prop where
+  len : nodes.length ≤ 16
+  split : Split nodes fcp
+  keysNodup : (nodes.map (·.key)).Nodup
+  incoming : (nodes.filter (fun n => n.st.conn && n.st.incoming)).length ≤ c.maxIncoming
+  stampsLe : ∀ n ∈ nodes, n.stamp ≤ tick
+
+def PFresh (pending : Option (Pending V)) (nodes : List (Node V)) : Prop :=
+  ∀ p, pending = some p → p.node.key ∉ nodes.map (·.key)
+
+theorem binv_iff {c : Cfg V} {tick : Nat} {b : Bucket V} :
+    BInv c tick b ↔ NInv c tick b.nodes b.fcp ∧ PFresh b.pending b.nodes :=
+  ⟨fun h => ⟨⟨h.len, h.split, h.keysNodup, h.incoming, h.stampsLe⟩, h.pendingFresh⟩,
+   fun ⟨h, hp⟩ => ⟨h.len, h.split, h.keysNodup, hp, h.incoming, h.stampsLe⟩⟩
+
+theorem binv_mk {c : Cfg V} {tick : Nat} {nodes : List (Node V)} {fcp : Option Nat}
+    {pd : Option (Pending V)} (h : NInv c tick nodes fcp) (hp : PFresh pd nodes) :
+    BInv c tick { nodes := nodes, fcp := fcp, pending := pd } :=
+  binv_iff.2 ⟨h, hp⟩
+
+theorem pfresh_none (nodes : List (Node V)) : PFresh none nodes := by
+  intro p hp; cases hp
+
+theorem ninv_nil (c : Cfg V) (tick : Nat) : NInv c tick [] none :=
+  ⟨by simp, split_nil, by simp, by simp, by simp⟩
+
+theorem binv_empty (c : Cfg V) (tick : Nat) : BInv c tick ({} : Bucket V) :=
+  binv_mk (ninv_nil c tick) (pfresh_none _)
+
+theorem NInv.mono {c : Cfg V} {tick tick' : Nat} {nodes : List (Node V)} {fcp : Option Nat}
+    (h : NInv c tick nodes fcp) (ht : tick ≤ tick') : NInv c tick' nodes fcp :=
+  ⟨h.len, h.split, h.keysNodup, h.incoming, fun n hn => Nat.le_trans (h.stampsLe n hn) ht⟩
+
+/-- `BInv` is monotone in the logical clock. -/
+theorem BInv.mono {c : Cfg V} {tick tick' : Nat} {b : Bucket V}
+    (h : BInv c tick b) (ht : tick ≤ tick') : BInv c tick' b :=
+  ⟨h.len, h.split, h.keysNodup, h.pendingFresh, h.incoming,
+    fun n hn => Nat.le_trans (h.stampsLe n hn) ht⟩
+
+theorem BInv.clearPending {c : Cfg V} {tick : Nat} {b : Bucket V} (h : BInv c tick b) :
+    BInv c tick { b with pending := none } :=
+  binv_mk (binv_iff.1 h).1 (pfresh_none _)
+
+theorem NInv.of_sublist {c : Cfg V} {tick : Nat} {nodes nodes' : List (Node V)}
+    {fcp fcp' : Option Nat} (h : NInv c tick nodes fcp) (hs : nodes'.Sublist nodes)
+    (hsp : Split nodes' fcp') : NInv c tick nodes' fcp' :=
+  ⟨Nat.le_trans hs.length_le h.len, hsp, (h.keysNodup).sublist (hs.map _),
+    Nat.le_trans (hs.filter _).length_le h.incoming, fun n hn => h.stampsLe n (hs.subset hn)⟩
+
+theorem PFresh.of_sublist {pd : Option (Pending V)} {nodes nodes' : List (Node V)}
+    (h : PFresh pd nodes) (hs : nodes'.Sublist nodes) : PFresh pd nodes' :=
+  fun p hp hm => h p hp ((hs.map _).subset hm)
+
+theorem NInv.of_perm_cons {c : Cfg V} {tick : Nat} {nodes nodes' : List (Node V)} {node : Node V}
+    {fcp fcp' : Option Nat} (h : NInv c tick nodes fcp) (hp : nodes'.Perm (node :: nodes))
+    (hlen : nodes.length < 16) (hk : node.key ∉ nodes.map (·.key))
+    (hin : node.st.conn = true → node.st.incoming = true →
+      (nodes.filter (fun n => n.st.conn && n.st.incoming)).length < c.maxIncoming)
+    (hst : node.stamp ≤ tick) (hsp : Split nodes' fcp') : NInv c tick nodes' fcp' := by
+  refine ⟨?_, hsp, ?_, ?_, ?_⟩
+  · rw [hp.length_eq]; simp; omega
+  · rw [(hp.map _).nodup_iff]; simp only [List.map_cons, List.nodup_cons]; exact ⟨hk, h.keysNodup⟩
+  · rw [(hp.filter _).length_eq, List.filter_cons]
+    by_cases hc : (node.st.conn && node.st.incoming) = true
+    · rw [if_pos hc]
+      simp only [Bool.and_eq_true] at hc
+      have := hin hc.1 hc.2
+      simp only [List.length_cons]; omega
+    · rw [if_neg hc]; exact h.incoming
+  · intro n hn
+    rcases List.mem_cons.1 (hp.mem_iff.1 hn) with rfl | hn
+    · exact hst
+    · exact h.stampsLe n hn
+
+theorem position_none_iff {b : Bucket V} {key : Nat} :
+    b.position key = none ↔ key ∉ b.nodes.map (·.key) := by
+  unfold Bucket.position
+  rw [List.findIdx?_eq_none_iff]
+  simp only [List.mem_map, not_exists, not_and, beq_eq_false_iff_ne, ne_eq]
+
+theorem isFull_false_iff {b : Bucket V} : b.isFull = false ↔ b.nodes.length < 16 := by
+  simp [Bucket.isFull, maxNodes, Consts.MAX_NODES_PER_BUCKET]
+
+theorem isFull_true_iff {b : Bucket V} : b.isFull = true ↔ 16 ≤ b.nodes.length := by
+  simp [Bucket.isFull, maxNodes, Consts.MAX_NODES_PER_BUCKET]
+
+theorem isMaxIncoming_false_iff {c : Cfg V} {b : Bucket V} : b.isMaxIncoming c = false ↔
+    (b.nodes.filter (fun n => n.st.conn && n.st.incoming)).length < c.maxIncoming := by
+  simp [Bucket.isMaxIncoming]
+
+/-- Shape of an insertion: permutation of `node :: nodes` and the ordering invariant. -/
+theorem InsertedShape.perm_split {b : Bucket V} {node : Node V} {nodes' : List (Node V)}
+    {fcp' : Option Nat} (hs : InsertedShape b node nodes' fcp') (hsp : Split b.nodes b.fcp)
+    (hst : ∀ n ∈ b.nodes, n.stamp ≤ node.stamp) :
+    nodes'.Perm (node :: b.nodes) ∧ Split nodes' fcp' := by
+  rcases hs with ⟨hc, rfl, rfl⟩ | ⟨hc, p, hf, rfl, rfl⟩ | ⟨hc, hf, rfl, rfl⟩
+  · exact ⟨List.perm_append_singleton _ _, split_append_conn hsp hc hst⟩
+  · rw [hf] at hsp
+    exact ⟨insertAt_perm _ _ _, split_insert_dis hsp hc hst⟩
+  · rw [hf] at hsp
+    exact ⟨List.perm_append_singleton _ _, split_append_dis hsp hc hst⟩
+
+/-- keys predicate: every stored and the pending key satisfies `P`. -/
+def BKeys (P : Nat → Prop) (b : Bucket V) : Prop :=
+  (∀ n ∈ b.nodes, P n.key) ∧ ∀ p, b.pending = some p → P p.node.key
+
+theorem insert_inv {c : Cfg V} {now tick : Nat} {b : Bucket V} {node : Node V}
+    (h : BInv c tick b) (hs : node.stamp = tick) : BInv c tick (Bucket.insert c now b node).1 := by
+  rcases insert_cases c now b node with ⟨h1, _⟩ | ⟨n0, hr, hpos, _, hp⟩ |
+    ⟨_, hpos, hfull, hin, hpend, hshape⟩
+  · rw [h1]; exact h
+  · rw [hr]
+    refine binv_mk (binv_iff.1 h).1 ?_
+    intro p hp; cases hp
+    exact position_none_iff.1 hpos
+  · have hn := (binv_iff.1 h).1
+    have hst : ∀ n ∈ b.nodes, n.stamp ≤ node.stamp := by rw [hs]; exact hn.stampsLe
+    obtain ⟨hperm, hsplit⟩ := hshape.perm_split hn.split hst
+    refine binv_iff.2 ⟨hn.of_perm_cons hperm (isFull_false_iff.1 hfull) (position_none_iff.1 hpos)
+      (fun h1 h2 => isMaxIncoming_false_iff.1 (hin h1 h2)) (Nat.le_of_eq hs) hsplit, ?_⟩
+    intro p' hp'
+    obtain ⟨hb, hne⟩ := hpend p' hp'
+    rw [(hperm.map _).mem_iff]
+    simp only [List.map_cons, List.mem_cons, not_or]
+    exact ⟨hne, h.pendingFresh p' hb⟩
+
+theorem insert_keys {c : Cfg V} {now : Nat} {b : Bucket V} {node : Node V} {P : Nat → Prop}
+    (h : BKeys P b) (hn : P node.key) : BKeys P (Bucket.insert c now b node).1 := by
+  rcases insert_cases c now b node with ⟨h1, _⟩ | ⟨n0, hr, hpos, _, hp⟩ |
+    ⟨_, hpos, hfull, hin, hpend, hshape⟩
+  · rw [h1]; exact h
+  · rw [hr]
+    refine ⟨h.1, ?_⟩
+    intro p hp; cases hp; exact hn
+  · refine ⟨?_, fun p' hp' => h.2 p' (hpend p' hp').1⟩
+    have hperm : (Bucket.insert c now b node).1.nodes.Perm (node :: b.nodes) := by
+      rcases hshape with ⟨hc, h1, _⟩ | ⟨hc, p, hf, h1, _⟩ | ⟨hc, hf, h1, _⟩
+      · rw [h1]; exact List.perm_append_singleton _ _
+      · rw [h1]; exact insertAt_perm _ _ _
+      · rw [h1]; exact List.perm_append_singleton _ _
+    intro n hn'
+    rcases List.mem_cons.1 (hperm.mem_iff.1 hn') with rfl | hn'
+    · exact hn
+    · exact h.1 n hn'
+
+/-! ### `applyPending` -/
+
+def fcpConnApply : Option Nat → Nat → Option Nat
+  | none, n => some n
+  | some q, _ => checkedSub1 q
+
+def FullShape (fcp : Option Nat) (rest : List (Node V)) (pn : Node V) (nodes' : List (Node V))
+    (fcp' : Option Nat) : Prop :=
+  (pn.st.conn = true ∧ nodes' = rest ++ [pn] ∧ fcp' = fcpConnApply fcp rest.length) ∨
+  (pn.st.conn = false ∧ ∃ q ip, fcp = some q ∧ checkedSub1 q = some ip ∧
+      nodes' = insertAt rest ip pn ∧ fcp' = fcp) ∨
+  (pn.st.conn = false ∧ fcp = none ∧ nodes' = rest ++ [pn] ∧ fcp' = none)
+
+def ApplySpec (c : Cfg V) (now tick : Nat) (b : Bucket V) (r : Bucket V × Option Applied) : Prop :=
+  (r = (b, none) ∧ ∀ p, b.pending = some p → ¬ p.replace ≤ now) ∨
+  (∃ p, b.pending = some p ∧ p.replace ≤ now ∧ r = ({ b with pending := none }, none)) ∨
+  (∃ p n0 rest, b.pending = some p ∧ p.replace ≤ now ∧ b.isFull = true ∧ b.nodes = n0 :: rest ∧
+      n0.st.conn = false ∧
+      (p.node.st.conn = true → p.node.st.incoming = true → b.isMaxIncoming c = false) ∧
+      r.2 = some ⟨p.node.key, some n0.key⟩ ∧ r.1.pending = none ∧
+      FullShape b.fcp rest { p.node with stamp := tick } r.1.nodes r.1.fcp) ∨
+  (∃ p, b.pending = some p ∧ p.replace ≤ now ∧ b.isFull = false ∧
+      r.1 = (Bucket.insert c now { b with pending := none } { p.node with stamp := tick }).1 ∧
+      (r.2 = none ∨ r.2 = some ⟨p.node.key, none⟩))
+
+theorem applyPending_cases (c : Cfg V) (now tick : Nat) (b : Bucket V) :
+    ApplySpec c now tick b (b.applyPending c now tick) := by
+  generalize hr : b.applyPending c now tick = r
+  unfold Bucket.applyPending at hr
+  unfold ApplySpec
+  obtain ⟨nodes, fcp, pending⟩ := b
+  cases pending with
+  | none => simp at hr; subst hr; simp
+  | some p =>
+    simp only at hr ⊢
+    by_cases h1 : p.replace ≤ now
+    case neg => simp [h1] at hr; subst hr; simp; omega
+    by_cases h2 : Bucket.isFull { nodes := nodes, fcp := fcp, pending := some p } = true
+    · have h2' : Bucket.isFull { nodes := nodes, fcp := fcp, pending := none } = true := h2
+      simp only [h1, h2', if_true] at hr
+      cases nodes with
+      | nil => simp at hr; subst hr; simp [h1]
+      | cons n0 rest =>
+        simp only at hr
+        by_cases h3 : n0.st.conn = true
+        · simp [h3] at hr; subst hr; simp [h1]
+        by_cases h4 : c.bucketFilter p.node.value
+            (Bucket.values { nodes := n0 :: rest, fcp := fcp, pending := none }) = true
+        case neg => simp [h3, h4] at hr; subst hr; simp [h1]
+        simp only [Bool.not_eq_true] at h3
+        by_cases h6 : p.node.st.conn = true
+        · by_cases h5 : (p.node.st.incoming = true ∧
+              Bucket.isMaxIncoming c { nodes := n0 :: rest, fcp := fcp, pending := none } = true)
+          · simp [h3, h4, h5, h6] at hr; subst hr; simp [h1]
+          have h5' : p.node.st.conn = true → p.node.st.incoming = true →
+              Bucket.isMaxIncoming c { nodes := n0 :: rest, fcp := fcp, pending := some p } = false := by
+            intro _ hb
+            have : Bucket.isMaxIncoming c { nodes := n0 :: rest, fcp := fcp, pending := none } =
+              Bucket.isMaxIncoming c { nodes := n0 :: rest, fcp := fcp, pending := some p } := rfl
+            rw [this] at h5
+            simpa [hb] using h5
+          simp [h3, h4, h5, h6] at hr
+          subst hr
+          right; right; left
+          refine ⟨p, n0, rest, rfl, h1, h2, rfl, h3, h5', rfl, rfl, Or.inl ⟨h6, rfl, ?_⟩⟩
+          cases fcp <;> rfl
+        · have h5' : p.node.st.conn = true → p.node.st.incoming = true →
+              Bucket.isMaxIncoming c { nodes := n0 :: rest, fcp := fcp, pending := some p } = false :=
+            fun ha => absurd ha h6
+          simp only [Bool.not_eq_true] at h6
+          cases fcp with
+          | none =>
+            simp [h3, h4, h6] at hr
+            subst hr
+            right; right; left
+            exact ⟨p, n0, rest, rfl, h1, h2, rfl, h3, h5', rfl, rfl, Or.inr (Or.inr ⟨h6, rfl, rfl, rfl⟩)⟩
+          | some q =>
+            cases hq : checkedSub1 q with
+            | none => simp [h3, h4, h6, hq] at hr; subst hr; simp [h1]
+            | some ip =>
+              simp [h3, h4, h6, hq] at hr
+              subst hr
+              right; right; left
+              exact ⟨p, n0, rest, rfl, h1, h2, rfl, h3, h5', rfl, rfl,
+                Or.inr (Or.inl ⟨h6, q, ip, rfl, hq, rfl, rfl⟩)⟩
+    · have h2f : Bucket.isFull { nodes := nodes, fcp := fcp, pending := some p } = false := by
+        simpa using h2
+      have h2' : Bucket.isFull { nodes := nodes, fcp := fcp, pending := none } = false := h2f
+      simp only [h1, h2', if_true] at hr
+      right; right; right
+      refine ⟨p, rfl, h1, h2f, ?_⟩
+      generalize Bucket.insert c now { nodes := nodes, fcp := fcp, pending := none }
+        { p.node with stamp := tick } = x at hr
+      obtain ⟨x1, x2⟩ := x
+      cases x2 <;> simp at hr <;> subst hr <;> simp
+
+theorem inserted_ninv {c : Cfg V} {tick : Nat} {b : Bucket V} {node : Node V}
+    {nodes' : List (Node V)} {fcp' : Option Nat} (hn : NInv c tick b.nodes b.fcp)
+    (hshape : InsertedShape b node nodes' fcp') (hfresh : node.key ∉ b.nodes.map (·.key))
+    (hlen : b.nodes.length < 16)
+    (hin : node.st.conn = true → node.st.incoming = true →
+      (b.nodes.filter (fun n => n.st.conn && n.st.incoming)).length < c.maxIncoming)
+    (hs : node.stamp = tick) : NInv c tick nodes' fcp' ∧ nodes'.Perm (node :: b.nodes) := by
+  have hst : ∀ n ∈ b.nodes, n.stamp ≤ node.stamp := by rw [hs]; exact hn.stampsLe
+  obtain ⟨hperm, hsplit⟩ := hshape.perm_split hn.split hst
+  exact ⟨hn.of_perm_cons hperm hlen hfresh hin (Nat.le_of_eq hs) hsplit, hperm⟩
+
+theorem split_head_dis {n0 : Node V} {rest : List (Node V)} {q : Nat}
+    (h : Split (n0 :: rest) (some q)) (h0 : n0.st.conn = false) : 0 < q := by
+  obtain ⟨dis, con, hnodes, hd, hcn, hf, _, _⟩ := h
+  by_cases hcon : con = []
+  · rw [if_pos hcon] at hf; cases hf
+  · rw [if_neg hcon] at hf
+    cases hf
+    cases dis with
+    | nil =>
+      simp at hnodes
+      have : n0 ∈ con := by rw [← hnodes]; simp
+      have := hcn n0 this
+      rw [h0] at this; cases this
+    | cons d ds => simp
+
+theorem FullShape.perm {fcp : Option Nat} {rest : List (Node V)} {pn : Node V}
+    {nodes' : List (Node V)} {fcp' : Option Nat} (h : FullShape fcp rest pn nodes' fcp') :
+    nodes'.Perm (pn :: rest) := by
+  rcases h with ⟨_, rfl, _⟩ | ⟨_, q, ip, _, _, rfl, _⟩ | ⟨_, _, rfl, _⟩
+  · exact List.perm_append_singleton _ _
+  · exact insertAt_perm _ _ _
+  · exact List.perm_append_singleton _ _
+
+/-- Evicting a disconnected head and admitting the pending node keeps the node-list invariant. -/
+theorem fullShape_ninv {c : Cfg V} {tick : Nat} {n0 : Node V} {rest : List (Node V)}
+    {fcp : Option Nat} {pn : Node V} {nodes' : List (Node V)} {fcp' : Option Nat}
+    (hn : NInv c tick (n0 :: rest) fcp) (h0 : n0.st.conn = false)
+    (hshape : FullShape fcp rest pn nodes' fcp') (hfresh : pn.key ∉ (n0 :: rest).map (·.key))
+    (hin : pn.st.conn = true → pn.st.incoming = true →
+      ((n0 :: rest).filter (fun n => n.st.conn && n.st.incoming)).length < c.maxIncoming)
+    (hs : pn.stamp = tick) : NInv c tick nodes' fcp' := by
+  have hrem : removeAt (n0 :: rest) 0 = rest := by simp [removeAt]
+  have hsp := (split_remove (pos := 0) (old := n0) hn.split rfl).1
+  rw [hrem] at hsp
+  have hf1 : fcpU (n0 :: rest) fcp 0 n0 = fcp.bind checkedSub1 := by
+    unfold fcpU; rw [h0]; cases fcp <;> rfl
+  rw [hf1] at hsp
+  have hsub : rest.Sublist (n0 :: rest) := List.sublist_cons_self _ _
+  have hn1 : NInv c tick rest (fcp.bind checkedSub1) := hn.of_sublist hsub hsp
+  let b1 : Bucket V := { nodes := rest, fcp := fcp.bind checkedSub1, pending := none }
+  have hshape1 : InsertedShape b1 pn nodes' fcp' := by
+    rcases hshape with ⟨hc, h1, h2⟩ | ⟨hc, q, ip, hf, hq, h1, h2⟩ | ⟨hc, hf, h1, h2⟩
+    · refine Or.inl ⟨hc, h1, ?_⟩
+      rw [h2]
+      cases fcp with
+      | none => rfl
+      | some q =>
+        have hq := split_head_dis hn.split h0
+        show checkedSub1 q = some ((checkedSub1 q).getD rest.length)
+        rw [checkedSub1_pos hq]; rfl
+    · refine Or.inr (Or.inl ⟨hc, ip, ?_, h1, ?_⟩)
+      · show fcp.bind checkedSub1 = some ip
+        rw [hf]; exact hq
+      · rw [h2, hf]
+        cases q with
+        | zero => cases hq
+        | succ q => cases hq; rfl
+    · refine Or.inr (Or.inr ⟨hc, ?_, h1, h2⟩)
+      show fcp.bind checkedSub1 = none
+      rw [hf]; rfl
+  have hlen : rest.length < 16 := by have := hn.len; simp at this; omega
+  refine (inserted_ninv (b := b1) hn1 hshape1 ?_ hlen ?_ hs).1
+  · intro hm; exact hfresh ((hsub.map _).subset hm)
+  · intro h1 h2
+    exact Nat.lt_of_le_of_lt (hsub.filter _).length_le (hin h1 h2)
+
+/-- `apply_pending` preserves the bucket invariant. -/
+theorem applyPending_inv (c : Cfg V) (now tick : Nat) (b : Bucket V) (h : BInv c tick b) :
+    BInv c tick (b.applyPending c now tick).1 := by
+  rcases applyPending_cases c now tick b with ⟨hr, _⟩ | ⟨p, _, _, hr⟩ |
+    ⟨p, n0, rest, hp, _, hfull, hnodes, h0, hin, _, hpend, hshape⟩ | ⟨p, hp, _, hfull, hr, _⟩
+  · rw [hr]; exact h
+  · rw [hr]; exact h.clearPending
+  · have hn := (binv_iff.1 h).1
+    rw [hnodes] at hn
+    refine binv_iff.2 ⟨fullShape_ninv hn h0 hshape ?_ ?_ rfl, ?_⟩
+    · have := h.pendingFresh p hp
+      rwa [hnodes] at this
+    · intro h1 h2
+      have := isMaxIncoming_false_iff.1 (hin h1 h2)
+      rwa [hnodes] at this
+    · rw [hpend]; exact pfresh_none _
+  · rw [hr]; exact insert_inv h.clearPending rfl
+
+theorem applyPending_keys {c : Cfg V} {now tick : Nat} {b : Bucket V} {P : Nat → Prop}
+    (h : BKeys P b) : BKeys P (b.applyPending c now tick).1 := by
+  have hclear : BKeys P { b with pending := none } := ⟨h.1, fun p hp => by cases hp⟩
+  rcases applyPending_cases c now tick b with ⟨hr, _⟩ | ⟨p, _, _, hr⟩ |
+    ⟨p, n0, rest, hp, _, hfull, hnodes, h0, hin, _, hpend, hshape⟩ | ⟨p, hp, _, hfull, hr, _⟩
+  · rw [hr]; exact h
+  · rw [hr]; exact hclear
+  · refine ⟨?_, fun p' hp' => by rw [hpend] at hp'; cases hp'⟩
+    intro n hn
+    rcases List.mem_cons.1 (hshape.perm.mem_iff.1 hn) with rfl | hn
+    · exact h.2 p hp
+    · exact h.1 n (by rw [hnodes]; exact List.mem_cons_of_mem _ hn)
+  · rw [hr]; exact insert_keys hclear (h.2 p hp)
+
+/-- The node keys after `apply_pending` are old node keys or the pending key. -/
+theorem applyPending_keys_subset {c : Cfg V} {now tick : Nat} {b : Bucket V} {k : Nat}
+    (hk : k ∈ (b.applyPending c now tick).1.nodes.map (·.key)) :
+    k ∈ b.nodes.map (·.key) ∨ ∃ p, b.pending = some p ∧ p.node.key = k := by
+  have h : BKeys (fun k => k ∈ b.nodes.map (·.key) ∨ ∃ p, b.pending = some p ∧ p.node.key = k) b :=
+    ⟨fun n hn => Or.inl (List.mem_map_of_mem hn), fun p hp => Or.inr ⟨p, hp, rfl⟩⟩
+  obtain ⟨n, hn, rfl⟩ := List.mem_map.1 hk
+  exact (applyPending_keys (c := c) (now := now) (tick := tick) h).1 n hn
+
+/-! ### table plumbing -/
+
+theorem Table.bucket_setBucket_eq (t : Table V) (i : Nat) (b : Bucket V) (h : i < t.buckets.length) :
+    (t.setBucket i b).bucket i = b := by
+  simp [Table.setBucket, Table.bucket, List.getD_eq_getElem?_getD, h]
+
+theorem Table.bucket_setBucket_ne (t : Table V) (i j : Nat) (b : Bucket V) (h : i ≠ j) :
+    (t.setBucket i b).bucket j = t.bucket j := by
+  simp [Table.setBucket, Table.bucket, List.getD_eq_getElem?_getD, List.getElem?_set, h]
+
+theorem Table.setBucket_of_length_le (t : Table V) (i : Nat) (b : Bucket V) (h : t.buckets.length ≤ i) :
+    t.setBucket i b = t := by
+  simp [Table.setBucket, List.set_eq_of_length_le h]
+
+@[simp] theorem setBucket_localKey (t : Table V) (i : Nat) (b : Bucket V) :
+    (t.setBucket i b).localKey = t.localKey := rfl
+@[simp] theorem setBucket_tick (t : Table V) (i : Nat) (b : Bucket V) :
+    (t.setBucket i b).tick = t.tick := rfl
+@[simp] theorem setBucket_applied (t : Table V) (i : Nat) (b : Bucket V) :
+    (t.setBucket i b).applied = t.applied := rfl
+@[simp] theorem setBucket_length (t : Table V) (i : Nat) (b : Bucket V) :
+    (t.setBucket i b).buckets.length = t.buckets.length := by simp [Table.setBucket]
+
+theorem Table.bucket_of_length_le (t : Table V) (i : Nat) (h : t.buckets.length ≤ i) :
+    t.bucket i = {} := by
+  simp [Table.bucket, List.getD_eq_getElem?_getD, List.getElem?_eq_none h]
+
+/-- The keys that belong into bucket `i`. -/
+def InBucket (localKey i : Nat) (k : Nat) : Prop := bucketIndex localKey k = some i
+
+theorem tinv_iff {c : Cfg V} {t : Table V} : TInv c t ↔ t.buckets.length = 256 ∧
+    ∀ i, i < 256 → BInv c t.tick (t.bucket i) ∧ BKeys (InBucket t.localKey i) (t.bucket i) :=
+  ⟨fun h => ⟨h.nBuckets, fun i hi => ⟨h.buckets i hi, h.placed i hi, h.placedPending i hi⟩⟩,
+   fun ⟨h1, h2⟩ => ⟨h1, fun i hi => (h2 i hi).1, fun i hi => (h2 i hi).2.1,
+     fun i hi => (h2 i hi).2.2⟩⟩
+
+theorem bkeys_empty (P : Nat → Prop) : BKeys P ({} : Bucket V) := by
+  constructor
+  · intro n hn; cases hn
+  · intro p hp; cases hp
+
+/-- Under `TInv` every index (also one beyond the table) addresses a bucket satisfying `BInv`. -/
+theorem TInv.binv {c : Cfg V} {t : Table V} (h : TInv c t) (i : Nat) :
+    BInv c t.tick (t.bucket i) := by
+  by_cases hi : i < 256
+  · exact h.buckets i hi
+  · rw [Table.bucket_of_length_le t i (by rw [h.nBuckets]; omega)]; exact binv_empty c _
+
+theorem TInv.bkeys {c : Cfg V} {t : Table V} (h : TInv c t) (i : Nat) :
+    BKeys (InBucket t.localKey i) (t.bucket i) := by
+  by_cases hi : i < 256
+  · exact ((tinv_iff.1 h).2 i hi).2
+  · rw [Table.bucket_of_length_le t i (by rw [h.nBuckets]; omega)]; exact bkeys_empty _
+
+theorem TInv.congr {c : Cfg V} {t t' : Table V} (h : TInv c t) (h1 : t'.localKey = t.localKey)
+    (h2 : t'.buckets = t.buckets) (h3 : t.tick ≤ t'.tick) : TInv c t' := by
+  have hb : ∀ i, t'.bucket i = t.bucket i := fun i => by simp [Table.bucket, h2]
+  rw [tinv_iff] at h ⊢
+  refine ⟨by rw [h2]; exact h.1, fun i hi => ?_⟩
+  rw [hb, h1]
+  exact ⟨(h.2 i hi).1.mono h3, (h.2 i hi).2⟩
+
+theorem TInv.bump {c : Cfg V} {t : Table V} (h : TInv c t) : TInv c t.bump :=
+  h.congr rfl rfl (Nat.le_succ _)
+
+theorem TInv.setBucket {c : Cfg V} {t : Table V} {i : Nat} {b : Bucket V} (h : TInv c t)
+    (hb : BInv c t.tick b) (hk : BKeys (InBucket t.localKey i) b) : TInv c (t.setBucket i b) := by
+  by_cases hi : i < t.buckets.length
+  · rw [tinv_iff] at h ⊢
+    refine ⟨by simpa using h.1, fun j hj => ?_⟩
+    by_cases hij : i = j
+    · subst hij
+      rw [Table.bucket_setBucket_eq t i b hi]
+      exact ⟨hb, hk⟩
+    · rw [Table.bucket_setBucket_ne t i j b hij]
+      exact h.2 j hj
+  · rw [Table.setBucket_of_length_le t i b (by omega)]; exact h
+
+theorem applyAt_eq (c : Cfg V) (now : Nat) (t : Table V) (i : Nat) :
+    ∃ ap, Table.applyAt c now t i =
+      { localKey := t.localKey,
+        buckets := t.buckets.set i ((t.bucket i).applyPending c now t.tick).1,
+        applied := ap, tick := t.tick } := by
+  unfold Table.applyAt
+  cases h : ((t.bucket i).applyPending c now t.tick).2 with
+  | none => exact ⟨t.applied, by simp [h, Table.setBucket]⟩
+  | some a => exact ⟨t.applied ++ [a], by simp [h, Table.setBucket]⟩
+
+@[simp] theorem Table.applyAt_localKey (c : Cfg V) (now : Nat) (t : Table V) (i : Nat) :
+    (Table.applyAt c now t i).localKey = t.localKey := by
+  obtain ⟨ap, h⟩ := applyAt_eq c now t i; rw [h]
+
+@[simp] theorem Table.applyAt_tick (c : Cfg V) (now : Nat) (t : Table V) (i : Nat) :
+    (Table.applyAt c now t i).tick = t.tick := by
+  obtain ⟨ap, h⟩ := applyAt_eq c now t i; rw [h]
+
+theorem Table.applyAt_buckets (c : Cfg V) (now : Nat) (t : Table V) (i : Nat) :
+    (Table.applyAt c now t i).buckets =
+      (t.setBucket i ((t.bucket i).applyPending c now t.tick).1).buckets := by
+  obtain ⟨ap, h⟩ := applyAt_eq c now t i; rw [h]; rfl
+
+theorem Table.bucket_congr {t t' : Table V} (h : t'.buckets = t.buckets) (i : Nat) :
+    t'.bucket i = t.bucket i := by simp [Table.bucket, h]
+
+/-- `applyAt` leaves the other buckets alone. -/
+theorem Table.applyAt_bucket_ne (c : Cfg V) (now : Nat) (t : Table V) (i j : Nat) (h : i ≠ j) :
+    (Table.applyAt c now t i).bucket j = t.bucket j := by
+  rw [Table.bucket_congr (Table.applyAt_buckets c now t i), Table.bucket_setBucket_ne _ _ _ _ h]
+
+theorem Table.applyAt_bucket_eq (c : Cfg V) (now : Nat) (t : Table V) (i : Nat)
+    (h : i < t.buckets.length) :
+    (Table.applyAt c now t i).bucket i = ((t.bucket i).applyPending c now t.tick).1 := by
+  rw [Table.bucket_congr (Table.applyAt_buckets c now t i), Table.bucket_setBucket_eq _ _ _ h]
+
+theorem Table.applyAt_buckets_length (c : Cfg V) (now : Nat) (t : Table V) (i : Nat) :
+    (Table.applyAt c now t i).buckets.length = t.buckets.length := by
+  rw [Table.applyAt_buckets]; simp
+
+/-- Applying the pending node of one bucket preserves the table invariant. -/
+theorem applyAt_inv (c : Cfg V) (now : Nat) (t : Table V) (i : Nat) (h : TInv c t) :
+    TInv c (Table.applyAt c now t i) := by
+  have h' : TInv c (t.setBucket i ((t.bucket i).applyPending c now t.tick).1) :=
+    h.setBucket (applyPending_inv c now t.tick _ (h.binv i)) (applyPending_keys (h.bkeys i))
+  exact h'.congr (by simp) (Table.applyAt_buckets c now t i) (by simp)
+
+theorem init_tinv (c : Cfg V) (localKey : Nat) : TInv c (Table.init localKey : Table V) := by
+  have hb : ∀ i, (Table.init localKey : Table V).bucket i = {} := by
+    intro i
+    simp only [Table.init, Table.bucket, List.getD_eq_getElem?_getD, List.getElem?_replicate]
+    split <;> rfl
+  rw [tinv_iff]
+  refine ⟨by show (List.replicate numBuckets _).length = 256; rw [List.length_replicate]; rfl, fun i _ => ?_⟩
+  rw [hb]
+  exact ⟨binv_empty c _, bkeys_empty _⟩
+
 end Discv5.KB
